@@ -58,6 +58,8 @@ pub struct LockStep {
     /// other property's business (C01, C04, C05): resynchronise instead of reporting. Only the
     /// oracles the check is about stay armed (cycle cost, completion, torn writes, reset state).
     pub lenient: bool,
+    /// torn-instruction / reset-state oracles at reset stimuli (C07's business; C09 switches them off)
+    pub check_reset: bool,
     cost_valid: bool,
     resync_next: bool,
     pub last: Option<StepInfo>,
@@ -119,6 +121,7 @@ impl LockStep {
             compare_board: false,
             compare: Compare::All,
             lenient: false,
+            check_reset: true,
             cost_valid: true,
             resync_next: false,
             last: None,
@@ -628,7 +631,11 @@ impl LockStep {
                 }
             }
             Stim::CpuReset | Stim::MasterReset | Stim::Load(_) => {
-                self.torn_ram_check(s)?;
+                if self.check_reset {
+                    self.torn_ram_check(s)?;
+                } else {
+                    self.rf.ram.copy_from_slice(self.sut.bus().memory());
+                }
                 s.apply(&mut self.sut);
                 match s {
                     Stim::CpuReset => self.rf.cpu_reset(),
@@ -644,7 +651,10 @@ impl LockStep {
                 self.cost_valid = !self.asm();
                 self.hint = io_snapshot(&self.sut);
                 if let Some(d) = self.diff() {
-                    return Err(self.v("reset-state", format!("right after {}: {}", s.kind(), d)));
+                    if self.check_reset {
+                        return Err(self.v("reset-state", format!("right after {}: {}", s.kind(), d)));
+                    }
+                    self.resync();
                 }
             }
             Stim::Mode(_) => {
